@@ -2,7 +2,7 @@
    the round-trip theorem covers, evaluated by the kernel on every build.            *)
 From Coq Require Import NArith ZArith List String Bool.
 From V Require Import Base.UString Base.Json Model.SchemaTypes Model.PyBase Model.Schema.
-From V Require Import Proofs.C01Roundtrip Proofs.C01Parse Gen.Tables.
+From V Require Import Proofs.C01Roundtrip Proofs.C01Parse Proofs.C01Bundle Gen.Tables.
 Import ListNotations.
 
 Definition lib_proved_ids : list ustring := Eval vm_compute in proved_ids variant_repaired lib.
@@ -22,11 +22,11 @@ Proof. vm_compute. reflexivity. Qed.
 Lemma lib_proved_sub : forallb (fun k => mem_ustr k lib_proved_idsw) lib_proved_ids = true.
 Proof. vm_compute. reflexivity. Qed.
 
-Definition lib_unproved_ids : list ustring :=
+Definition lib_unproved_ids0 : list ustring :=
   Eval vm_compute in filter (fun x => negb (mem_ustr x lib_proved_idsw)) (map cid (wclasses lib)).
 
 (* how many of the classes are covered; the check prints both lists into the evidence *)
-Definition lib_coverage : nat * nat := Eval vm_compute in (List.length lib_proved_idsw, List.length (wclasses lib)).
+Definition lib_coverage0 : nat * nat := Eval vm_compute in (List.length lib_proved_idsw, List.length (wclasses lib)).
 
 (* parse entry points: the proved classes whose tables also pass parse_class_ok *)
 Definition lib_parse_ids : list ustring :=
@@ -40,3 +40,23 @@ Proof. vm_compute. reflexivity. Qed.
 
 Lemma lib_registry_ok : registry_ok lib = true.
 Proof. vm_compute. reflexivity. Qed.
+
+(* the Bundle classes the Bundle theorem covers (Proofs/C01Bundle.v: bundle_ok, members through the parse-level theorem) *)
+Definition lib_bundle_ids : list ustring :=
+  Eval vm_compute in filter (fun k => match find_class (wclasses lib) k with
+                                      | Some c => bundle_ok variant_repaired lib lib_proved_ids c
+                                      | None => false
+                                      end) (map cid (wclasses lib)).
+
+Lemma lib_bundle_okb : forallb (fun k => match find_class (wclasses lib) k with
+                                         | Some c => bundle_ok variant_repaired lib lib_proved_ids c
+                                         | None => false
+                                         end) lib_bundle_ids = true.
+Proof. vm_compute. reflexivity. Qed.
+
+(* classes covered by neither theorem *)
+Definition lib_unproved_ids : list ustring :=
+  Eval vm_compute in filter (fun x => negb (mem_ustr x lib_bundle_ids)) lib_unproved_ids0.
+
+Definition lib_coverage : nat * nat :=
+  Eval vm_compute in (List.length lib_proved_idsw + List.length lib_bundle_ids, List.length (wclasses lib))%nat.
